@@ -412,8 +412,10 @@ Qed.
 Lemma reads_vec {A} (p : word -> option A) t ws v n :
   mapM p ws = Some v -> ws <> [] -> n = Z.of_nat (length ws) -> reads (rd_vec p n) [RVec t ws] v.
 Proof.
-  intros Hp Hne -> s s0 E. unfold rd_vec. rewrite <- rline_sk, E, rline_sk. simpl.
+  intros Hp Hne -> s s0 E. unfold rd_vec.
   destruct ws as [|w ws]; try congruence.
+  assert (Hz : (Z.of_nat (length (w :: ws)) =? 0) = false) by (apply Z.eqb_neq; simpl length; lia).
+  rewrite Hz. rewrite <- rline_sk, E, rline_sk. simpl.
   destruct (null t); simpl rline; cbv beta iota; rewrite Z.eqb_refl, Hp; eauto.
 Qed.
 
@@ -425,8 +427,11 @@ Qed.
 Lemma reads_vec_untitled {A} (p : word -> option A) t ws v n :
   mapM p ws = Some v -> ws <> [] -> n = Z.of_nat (length ws) -> reads (rd_vec p n) (map (RVal []) ws ++ [RCom t]) v.
 Proof.
-  intros Hp Hne -> s s0 E. unfold rd_vec. rewrite layout_untitled in E. rewrite <- rline_sk, E, rline_sk.
-  destruct ws as [|w ws]; try congruence. simpl rline. cbv beta iota. rewrite Z.eqb_refl, Hp. eauto.
+  intros Hp Hne -> s s0 E. unfold rd_vec. rewrite layout_untitled in E.
+  destruct ws as [|w ws]; try congruence.
+  assert (Hz : (Z.of_nat (length (w :: ws)) =? 0) = false) by (apply Z.eqb_neq; simpl length; lia).
+  rewrite Hz. rewrite <- rline_sk, E, rline_sk.
+  simpl rline. cbv beta iota. rewrite Z.eqb_refl, Hp. eauto.
 Qed.
 Lemma reads_vdbl_untitled t ds :
   Forall wf_dbl ds -> ds <> [] -> reads (rd_vdbl (Z.of_nat (length ds))) (map (r_dbl "") ds ++ [RCom t]) ds.
@@ -508,7 +513,11 @@ Proof.
   destruct (H [[]] (layout rs [[]]) eq_refl) as (s1 & E & _). unfold layout in E. rewrite E. reflexivity.
 Qed.
 
-(* an empty vector followed by any data is not read back (the reader takes the next data line) *)
-Lemma empty_vector_not_read :
-  nf_read "T" (v <- rd_vdbl 0 ;; x <- rd_int ;; ret (v, x)) (lex (print (nf_write "T" [r_vdbl "V" []; r_int "n" 7]))) = None.
+(* an empty vector record is read back as the empty vector, whatever follows *)
+Lemma reads_vec_nil {A} (p : word -> option A) t : reads (rd_vec p 0) [RVec t []] [].
+Proof.
+  intros s s0 E. unfold rd_vec. simpl. exists s0. split; auto. rewrite E. simpl. destruct (null t); reflexivity.
+Qed.
+Lemma empty_vector_read_back :
+  nf_read "T" (v <- rd_vdbl 0 ;; x <- rd_int ;; ret (v, x)) (lex (print (nf_write "T" [r_vdbl "V" []; r_int "n" 7]))) = Some ([], 7).
 Proof. vm_compute. reflexivity. Qed.
